@@ -194,7 +194,7 @@ def run_shard(sh, rec):
 
 
 def explore(tier, seed):
-    cfgs = s1.configs(tier, ro_values=(True, False)) + s1.nd_configs(tier) + s1.long_configs(tier) + s1.bign_configs(tier) + s1.vlong_configs(tier)
+    cfgs = s1.configs(tier, ro_values=(True, False)) + s1.nd_configs(tier) + s1.long_configs(tier) + s1.bign_configs(tier) + s1.vlong_configs(tier) + s1.near_tie_configs(tier)
     rec = core.pmap(run_shard, cfgs + [("range",) + c for c in range_cases(tier)] + [("edge", 1), ("edge", 2), ("edge", 0.7)], seed, progress="C11")
     rec.vac("skipped_sprt_finiteN_not_random_order", sum(1 for _ in []))
     return rec
